@@ -179,7 +179,7 @@ class WfGen:
         if self.needs and n >= 2 and self.rng.chance(1, 3):
             i = self.rng.below(n)
             if not brs[i].get("else"):
-                others = [b["id"] for j, b in enumerate(brs) if j != i and not b.get("needs")]
+                others = [b["id"] for j, b in enumerate(brs) if j != i and not b.get("needs") and (self.needs != "cond" or b.get("if"))]
                 if others:
                     brs[i].pop("if", None)
                     k = self.rng.range(1, min(2, len(others)))
